@@ -157,14 +157,15 @@ def _scan_cond(fn, c):
     return None
 
 
-def track(fn, var_ids):
-    """abstract interpretation of the locals in var_ids; returns state_before[(block, idx)] -> {var_id: state}
-    and a helper to query the state just before a CFG element node"""
+def track(fn, var_ids, seed=None):
+    """abstract interpretation of the locals in var_ids; returns a helper to query the state just before a CFG element node.
+    seed = (node, {var: state}): interpret only what follows the CFG element `node`, starting from the given state (the states
+    reached from that element alone, not joined with those of other ways into the code after it); helper.visited(node) tells
+    whether the element is reachable from there."""
     g = graph(fn)
     IN = {}
-    work = [g.entry]
-    IN[g.entry] = {}
     before = {}
+    before_seed = {}
 
     def join(a, b):
         out = {}
@@ -190,14 +191,14 @@ def track(fn, var_ids):
             return None
         return START
 
-    iters = 0
-    while work and iters < 5000:
-        iters += 1
-        b = work.pop()
-        st = dict(IN[b])
+    def process(b, st, first_idx, rec):
+        """interpret block b from element first_idx on with entry state st; record the states in rec; yield (successor, state)"""
+        st = dict(st)
         blk = g.blocks[b]
         for idx, e in enumerate(blk['elems']):
-            before[(b, idx)] = dict(st)
+            if idx < first_idx:
+                continue
+            rec[(b, idx)] = dict(st)
             nd = fn.n(e)
             c = nd['c']
             if c == 'DeclStmt':
@@ -224,9 +225,10 @@ def track(fn, var_ids):
                 v = fn.var_of(tgt)
                 if v in var_ids:
                     st[v] = None
-        before[(b, len(blk['elems']))] = dict(st)
+        rec[(b, len(blk['elems']))] = dict(st)
         cond = g.cond(b)
         sc = _scan_cond(fn, cond) if cond else None
+        outs = []
         for (s, lab) in g.out_edges(b):
             if s is None:
                 continue
@@ -235,19 +237,51 @@ def track(fn, var_ids):
                 x, key = sc
                 if x[2] in var_ids and out.get(x[2]) in (START,) + tuple([out.get(x[2])] if (out.get(x[2]) and out.get(x[2])[0] == 'LAST_LE') else []):
                     out[x[2]] = ('LAST_LE', key, None, None)
-            if s not in IN:
-                IN[s] = out
+            outs.append((s, out))
+        return outs
+
+    work = []
+
+    def push(s, out):
+        if s not in IN:
+            IN[s] = out
+            work.append(s)
+        else:
+            j = join(IN[s], out)
+            if j != IN[s]:
+                IN[s] = j
                 work.append(s)
-            else:
-                j = join(IN[s], out)
-                if j != IN[s]:
-                    IN[s] = j
-                    work.append(s)
+
+    if seed is None:
+        IN[g.entry] = {}
+        work.append(g.entry)
+    else:
+        sp = fn.block_of(seed[0])
+        if sp:
+            for (s, out) in process(sp[0], seed[1], sp[1] + 1, before_seed):
+                push(s, out)
+    iters = 0
+    while work and iters < 5000:
+        iters += 1
+        b = work.pop()
+        for (s, out) in process(b, IN[b], 0, before):
+            push(s, out)
+
+    def _at(pos):
+        a, b_ = before.get(pos), before_seed.get(pos)
+        if a is not None and b_ is not None:
+            return join(a, b_)
+        return a if a is not None else b_
 
     def state_before(node, var_id):
         pos = fn.block_of(node)
         if not pos:
             return None
-        return before.get((pos[0], pos[1]), {}).get(var_id)
+        return (_at((pos[0], pos[1])) or {}).get(var_id)
 
+    def visited(node):
+        pos = fn.block_of(node)
+        return bool(pos) and _at((pos[0], pos[1])) is not None
+
+    state_before.visited = visited
     return state_before
